@@ -13,7 +13,7 @@ import itertools
 import warnings
 
 from vf import ref_types as R
-from vf.core import HarnessError, Tally
+from vf.core import vacuous, HarnessError, Tally
 
 LEVEL = "exploration"
 D = decimal.Decimal
@@ -409,13 +409,13 @@ def run(ctx):
     need = ["W-ok", "R-ok", "X-rejected", "N-required-refused", "N-optional-none", "L-nag-kept", "L-over-rejected"]
     missing = [o for o in need if o not in tally.outcomes]
     if missing:
-        raise HarnessError(f"vacuous: outcomes never observed {missing}")
+        vacuous(tally, f"vacuous: outcomes never observed {missing}")
     tally.sample({"spec": "Decimal(2;required=False)", "read": "+1,505", "expected": "1.50 (half-even), canonical text '1.50'"})
     tally.sample({"spec": "Integer(2;required=True)", "limits": "99 accepted, 100 and -100 rejected"})
     tally.sample({"spec": "NagString(1)", "over-long": "'aa' warns OFXTypeWarning and is kept"})
     cov = {
-        "evaluations": tally.counts["evaluations"],
-        "distinct_nontrivial": tally.counts["evaluations"],
+        "evaluations": tally.counts.get("evaluations", 0),
+        "distinct_nontrivial": tally.counts.get("evaluations", 0),
         "rule": f"{len(specs)} parameterisations (Bool; String/NagString length None,1,2,5; OneOf of 3 token sets; Integer length None,1,2,3; Decimal scale "
         "None,0,1,2,4; DateTime; Time; each x required x bare/ListElement) x whole small domain: all strings of length <= limit+1 over {a,&,<,e-acute,inner blank}; "
         "all integers in (-10^n,10^n) and the first values beyond; all decimals m*10^-s |m|<=300 s<=4 with texts using . and , signs, leading zeros; "
